@@ -462,6 +462,7 @@ func cmdCheck(args []string) {
 		fmt.Println(l)
 	}
 	if violations > 0 {
+		os.RemoveAll(dir) // os.Exit skips the deferred cleanup
 		os.Exit(1)
 	}
 }
